@@ -11,6 +11,7 @@ import (
 	"github.com/olric-data/olric/internal/cluster/partitions"
 	"github.com/olric-data/olric/internal/verifhook"
 	"sync"
+	"sync/atomic"
 	"time"
 
 	"github.com/olric-data/olric"
@@ -140,9 +141,40 @@ func init() {
 			armed.Lock()
 			armed.spec, armed.fired = nil, nil
 			armed.Unlock()
+			// flap watch: while the scenario believes the membership is settled, no live member may see fewer members
+			// than are alive. On a busy machine memberlist suspects live members; a scenario in which that happened is
+			// not a statement about the property (the environment changed the membership, not the scenario).
+			var settled, flapped int32 = 1, 0
+			var flapNote atomic.Value
+			stopWatch := make(chan struct{})
+			go func() {
+				for {
+					select {
+					case <-stopWatch:
+						return
+					case <-time.After(15 * time.Millisecond):
+					}
+					if atomic.LoadInt32(&settled) == 0 {
+						continue
+					}
+					cl.mu.Lock()
+					live := cl.Live()
+					cl.mu.Unlock()
+					for _, m := range live {
+						if n := m.DB.VerifRT().Discovery().NumMembers(); n < len(live) && atomic.LoadInt32(&settled) == 1 {
+							atomic.StoreInt32(&flapped, 1)
+							flapNote.Store(fmt.Sprintf("member %s saw %d members while %d were alive", m.Addr, n, len(live)))
+						}
+					}
+				}
+			}()
 			for i := range sc.Ops {
 				op := &sc.Ops[i]
 				var ob map[string]interface{}
+				switch op.Op {
+				case "join", "stop", "arm", "colocate":
+					atomic.StoreInt32(&settled, 0)
+				}
 				switch op.Op {
 				case "stop":
 					t0 := time.Now()
@@ -256,7 +288,17 @@ func init() {
 				default:
 					ob = r.runOp(op)
 				}
+				if op.Op == "waitstable" && ob["r"] == "ok" {
+					atomic.StoreInt32(&settled, 1)
+				}
 				res.Obs = append(res.Obs, ob)
+			}
+			close(stopWatch)
+			if atomic.LoadInt32(&flapped) == 1 {
+				if res.Env == nil {
+					res.Env = map[string]interface{}{}
+				}
+				res.Env["flapped"] = flapNote.Load()
 			}
 			cl.Shutdown()
 			enc, _ := json.Marshal(res)
